@@ -35,6 +35,7 @@ theorem lz_spec32 (digest : List UInt8) (h : digest.length = 32) (k : Nat) (hk :
   exact this
 
 example : lz [0, 0, 0x1f, 0xff] = 19 := by decide +kernel
+example : (19 ≤ lz [0, 0, 0x1f, 0xff]) ∧ ¬ (20 ≤ lz [0, 0, 0x1f, 0xff]) := by decide +kernel
 
 /-! ### C19.counters — all leading-zero counters agree with `lz`, hence with each other -/
 
@@ -77,9 +78,6 @@ theorem accept_transport_cli (h : HandshakeFields) (nonce d : Nat) :
   by_cases h0 : d = 0
   · simp [h0]
   · simp [h0, clzCli_eq_lz]
-
-theorem capTo_eq_min (d : Nat) : capTo 24 d = capped d := by
-  unfold capTo capped; rw [Nat.min_def]; split <;> split <;> omega
 
 /-- store surface: the validator itself caps the difficulty at 24 -/
 theorem accept_store (s : StoreFields) (nonce d : Nat) :
@@ -219,12 +217,6 @@ theorem solver_transport_cli (startOf : Nat → Nat) (hf : HandshakeFields) (d n
   · simp only [beq_iff_eq, h0, if_false] at h
     exact search_sound (fun n => transportPowValid sha hf n d) _ _ _ _ h
 
-theorem capTo_idem (c d : Nat) : capTo c (capTo c d) = capTo c d := by
-  unfold capTo
-  by_cases h : d > c
-  · simp [h]
-  · simp [h]
-
 /-- store work (solved by the CLI with the library solver) is accepted by the daemon's validator
     at the same configured difficulty -/
 theorem solver_store {σ : Type} (init : Nat → σ) (next : σ → Nat × σ) (s : StoreFields) (d maxAttempts n : Nat)
@@ -250,6 +242,12 @@ theorem solver_token (t : TokenFields) (d maxAttempts n : Nat)
     split at h
     · cases h
     · exact search_sound (fun n => tokenValid sha t n d) _ _ _ _ h
+
+-- non-vacuity: solvers do return nonces (toy hash: every digest is two zero bytes / one 0x01 byte)
+example : solveToken (fun _ => [0, 0]) ⟨[], [], [1]⟩ 16 5 = some 0 := by decide
+example : computeStorePow (fun _ => [0, 0]) id (fun s => (s, s + 1)) ⟨[], 0, []⟩ 9 0 = some 0 := by decide
+example : computeHandshakePow (fun _ => [0, 0, 0, 0, 0, 0, 0, 0]) id ⟨[], [], 2⟩ 3 = some 0 := by decide
+example : solveToken (fun _ => [1]) ⟨[], [], [1]⟩ 8 3 = none := by decide
 
 end solver
 
